@@ -1,9 +1,212 @@
+import RsslVerif.Model.Meta
+import RsslVerif.Model.MetaReach
 import RsslVerif.Driver.Util
-/-! Line-protocol front end of the C05 model (stub until the model is built). -/
+/-!
+Line-protocol front end of the C05 model.
+
+request : C05.meta \t <dx|vk|vkba|msl> \t <all|name=P|nopipeline> \t <nstatics> \t <resources> \t <helpers> \t <entries> \t <pipes>
+  resource : name:kind:group:arr:ss:bl:st     kind = ObjectType name | cbuffer; group = - | n; arr = - | n | u;
+                                               ss, bl = 0 | 1; st = e | s
+  helper   : name:uses:calls:statics          comma separated indices (uses -> resources, calls -> helpers)
+  entry    : name:stage:uses:calls:statics:x.y.z|-
+  pipe     : name:dflt|-:entry indices
+answer  : per built pipeline  M[..] A[..] S[..] F[..]  joined by " ## "  (see harness/src/c05.rs)
+-/
 namespace RsslVerif.Driver.C05
+open RsslVerif.Gen.SlotTables RsslVerif.Gen.MetaTables RsslVerif.Gen.CompileTables
+open RsslVerif.Model.Slots RsslVerif.Model.Meta RsslVerif.Model.MetaReach RsslVerif.Driver
+
+structure Res where
+  name : String
+  kind : Option ObjKind   -- none = cbuffer
+  group : Option Nat
+  arr : Arr
+  ss : Bool
+  bl : Bool
+  st : Storage
+
+structure Fn where
+  name : String
+  uses : List Nat
+  calls : List Nat
+  statics : List Nat
+  stage : Option Stage
+  threads : Option (Nat × Nat × Nat)
+
+structure Pipe where
+  name : String
+  dflt : Option Nat
+  stages : List Nat
+
+def splitList (s : String) (sep : String) : List String := if s.isEmpty then [] else s.splitOn sep
+
+def natList? (s : String) : Option (List Nat) := sequenceOpt ((splitList s ",").map (·.toNat?))
+
+def flag? (s : String) : Option Bool := if s == "1" then some true else if s == "0" then some false else none
+
+def parseRes (s : String) : Option Res :=
+  match s.splitOn ":" with
+  | [name, kind, group, arr, ss, bl, st] => do
+    let kind ← if kind == "cbuffer" then some none else (ObjKind.ofName? kind).map some
+    let group ← optNat? group
+    let arr ← if arr == "-" then some Arr.no else if arr == "u" then some Arr.unsized else arr.toNat?.map Arr.sized
+    let ss ← flag? ss
+    let bl ← flag? bl
+    let st ← if st == "e" then some Storage.extern else if st == "s" then some Storage.static else none
+    pure { name, kind, group, arr, ss, bl, st }
+  | _ => none
+
+def parseStage (s : String) : Option Stage :=
+  [Stage.Vertex, .Task, .Mesh, .Pixel, .Compute].find? (fun st => st.name == s)
+
+def parseThreads (s : String) : Option (Option (Nat × Nat × Nat)) :=
+  if s == "-" then some none else
+  match (s.splitOn ".").map (·.toNat?) with
+  | [some x, some y, some z] => some (some (x, y, z))
+  | _ => none
+
+def parseHelper (s : String) : Option Fn :=
+  match s.splitOn ":" with
+  | [name, uses, calls, statics] => do
+    pure { name, uses := ← natList? uses, calls := ← natList? calls, statics := ← natList? statics,
+           stage := none, threads := none }
+  | _ => none
+
+def parseEntry (s : String) : Option Fn :=
+  match s.splitOn ":" with
+  | [name, stage, uses, calls, statics, threads] => do
+    pure { name, uses := ← natList? uses, calls := ← natList? calls, statics := ← natList? statics,
+           stage := some (← parseStage stage), threads := ← parseThreads threads }
+  | _ => none
+
+def parsePipe (s : String) : Option Pipe :=
+  match s.splitOn ":" with
+  | [name, dflt, stages] => do pure { name, dflt := ← optNat? dflt, stages := ← natList? stages }
+  | _ => none
+
+/-- root definitions in the order the generated file declares them:
+    struct CbS; statics; two structs; groupshared payload; resources; (functions contribute nothing) -/
+def declsOf (nstatics : Nat) (rs : List Res) : List MDecl × Nat :=
+  let pre : List MDecl :=
+    [.other] ++ (List.range nstatics).map (fun k => .global ("s_value" ++ toString k) none false none .no false .static) ++
+    [.other, .other, .global "lds_payload" none false none .no false .groupshared]
+  (pre ++ rs.map fun r =>
+    match r.kind with
+    | none => .cbuffer r.name r.group
+    | some k => .global r.name r.group r.ss (some k) r.arr r.bl r.st, pre.length)
+
+def showLoc : Loc → String
+  | .index i => "i" ++ toString i
+  | .inline o => "n" ++ toString o
+
+def showEntry (e : Entry) : String :=
+  e.name ++ "=" ++ showLoc e.loc ++ ":" ++ e.descType.name ++ ":" ++ showOptNat e.count ++
+    ":b" ++ (if e.bindless then "1" else "0") ++ ":u" ++ (if e.used then "1" else "0") ++
+    ":s" ++ (if e.staticSampler then "1" else "0")
+
+def showGroup (g : Group) : String :=
+  ",".intercalate (g.bindings.map showEntry) ++
+    (match g.inlineConstants with | none => "" | some (l, s) => ";inl=" ++ toString l ++ "/" ++ toString s)
+
+def showAnnot (name : String) (a : Annot) : String :=
+  let (st, tx) := a.print
+  name ++ "=>" ++ (if st.isEmpty then "" else String.ofList st ++ "/") ++ String.ofList tx
+
+def insertStr (s : String) : List String → List String
+  | [] => [s]
+  | x :: xs => if s < x then s :: x :: xs else x :: insertStr s xs
+
+def sortStrs : List String → List String
+  | [] => []
+  | x :: xs => insertStr x (sortStrs xs)
+
+def showThreads : Option (Nat × Nat × Nat) → String
+  | none => "-"
+  | some (x, y, z) => toString x ++ "." ++ toString y ++ "." ++ toString z
+
+def targetParams (tgt : String) : Option (Bool × Params) :=
+  if tgt == "dx" then some (false, paramsFor .HlslForDirectX false)
+  else if tgt == "vk" then some (false, paramsFor .HlslForVulkan false)
+  else if tgt == "vkba" then some (false, paramsFor .HlslForVulkan true)
+  else if tgt == "msl" then some (true, paramsFor .Msl false)
+  else none
+
+/-- one `build_pipeline` -/
+def buildOne (msl : Bool) (p : Params) (nstatics : Nat) (rs : List Res) (helpers entries : List Fn)
+    (pipe : Option Pipe) : String :=
+  let (ds, off) := declsOf nstatics rs
+  let dflt := match pipe with | some pp => pp.dflt.getD 0 | none => 0
+  let reserved := if msl then mslReserved else hlslReserved
+  -- names the model cannot follow through the name generator (C15)
+  if (rs.any fun r => reserved.contains r.name) && (!msl || pipe.isSome) then "unsupported-renamed-global" else
+  let funcs := helpers ++ entries
+  let nh := helpers.length
+  -- overloads are renamed by the name generator, possibly onto another function's name (C15)
+  if !(funcs.map (·.name)).Nodup && !msl then "unsupported-overloaded-names" else
+  let stageIds := match pipe with | some pp => pp.stages | none => []
+  if stageIds.any (fun k => match entries[k]? with | some f => reserved.contains f.name | none => true) && !msl then
+    "unsupported-renamed-entry" else
+  -- globals: statics are at positions 1.., resources at off..
+  let direct : Nat → List Sym := fun f =>
+    match funcs[f]? with
+    | none => []
+    | some fd => fd.uses.map (fun r => Sym.glob (off + r)) ++ fd.calls.map Sym.fn ++
+                 fd.statics.map (fun k => Sym.glob (1 + k))
+  let keys := List.range funcs.length
+  match recurse (funcs.length + 2) keys direct with
+  | none => "unsupported-fuel"
+  | some req =>
+    let usedAt := fun i => usedBy req (stageIds.map (nh + ·)) i
+    let slots := assign p dflt (ds.map MDecl.toSlot)
+    let metaR := if msl then mslMeta p dflt usedAt ds else hlslMeta p dflt ds
+    match slots, metaR with
+    | .error e, _ => "panic:" ++ e
+    | _, .error e => "panic:" ++ e
+    | .ok res, .ok groups =>
+      let annR := annots (if msl then mslAnnot else hlslAnnot p) ds res.bindings
+      match annR with
+      | .error e => "panic:" ++ e
+      | .ok anns =>
+        let inlineAnns := if msl then [] else
+          res.inlineBufs.map fun b => showAnnot (String.ofList (inlineGlobalName b.set)) (.vk b.apiLocation b.set)
+        let bufAnns := if msl && pipe.isSome then
+          (List.range groups.length).map fun i => "set" ++ toString i ++ "=>" ++ String.ofList (printBuffer i) else []
+        let anns := if msl && pipe.isNone then [] else anns.map fun (n, a) => showAnnot n a
+        let fdefs : List FuncDef := entries.map fun f => { name := f.name, emitted := f.name, numthreads := f.threads }
+        let sdefs : List StageDef := stageIds.filterMap fun k =>
+          match entries[k]? with
+          | some f => f.stage.map fun st => { stage := st, entry := k }
+          | none => none
+        let reported := sdefs.filterMap (reportStage msl fdefs)
+        let emitted := sdefs.filterMap (emittedStage msl fdefs)
+        let showEm := fun (x : String × Option (Nat × Nat × Nat)) =>
+          x.1 ++ ":" ++ (if msl then (match x.2 with | none => "-" | some (a, b, c) => toString (a * b * c)) else showThreads x.2)
+        "M[" ++ "|".intercalate (groups.map showGroup) ++ "] A[" ++
+          ";".intercalate (sortStrs (anns ++ inlineAnns ++ bufAnns)) ++ "] S[" ++
+          ",".intercalate (reported.map fun s => s.stage.name ++ ":" ++ s.entryPoint ++ ":" ++ showThreads s.threadGroupSize) ++
+          "] F[" ++ ",".intercalate (emitted.map showEm) ++ "]"
 
 def handle (op : String) (args : List String) : String :=
-  let _ := (op, args)
-  "unsupported-op"
+  match op, args with
+  | "C05.meta", [tgt, mode, nstatics, rs, hs, es, ps] =>
+    match targetParams tgt, nstatics.toNat?, sequenceOpt ((splitList rs ";").map parseRes),
+          sequenceOpt ((splitList hs ";").map parseHelper), sequenceOpt ((splitList es ";").map parseEntry),
+          sequenceOpt ((splitList ps ";").map parsePipe) with
+    | some (msl, p), some ns, some rs, some hs, some es, some ps =>
+      if mode == "nopipeline" then buildOne msl p ns rs hs es none
+      else if mode == "all" then
+        if ps.isEmpty then "err:none" else
+        let parts := ps.map fun pp => buildOne msl p ns rs hs es (some pp)
+        match parts.find? (·.startsWith "unsupported") with
+        | some u => u
+        | none => " ## ".intercalate parts
+      else if mode.startsWith "name=" then
+        let n := (mode.drop 5).toString
+        match ps.find? (fun pp => pp.name == n) with
+        | some pp => buildOne msl p ns rs hs es (some pp)
+        | none => "err:unknown"
+      else "bad-request"
+    | _, _, _, _, _, _ => "bad-request"
+  | _, _ => "unsupported-op"
 
 end RsslVerif.Driver.C05
